@@ -207,13 +207,14 @@ def expr(tier="quick"):
 # FUNC
 
 RETFORMS = {
+    "tailloop": lambda e: f"i = 0\nwhile True:\n    i += 1\n    if i * 2 >= {e}:\n        return i + 10\n",
     "none": lambda e: f"db.On = {e}\n",
     "end": lambda e: f"return {e}\n",
     "early": lambda e: f"if {e} > 2:\n    return {e} - 1\ndb.On = {e}\nreturn {e} + 1\n",
     "loop": lambda e: f"for q in range(3):\n    if q == {e}:\n        return q + 10\nreturn 0 - 1\n",
     "bare": lambda e: f"if {e} > 1:\n    return\ndb.On = {e}\n",
 }
-HASRET = {"end", "early", "loop"}
+HASRET = {"end", "early", "loop", "tailloop"}
 
 
 def fdef(name, params, body):
@@ -613,8 +614,11 @@ LEAF_RET = {
     "multi": "if {t} > 3:\n    return 30\nif {t} > 1:\n    db.On = {t}\n    return 20\ndb.Mode = {t}\nreturn 10 + {t}\n",
     "loop": "for q in range(3):\n    if q == {t}:\n        return q + 10\n    db.On = q\nreturn 0 - 1\n",
     "bare": "if {t} > 1:\n    return\ndb.On = {t}\n",
+    # the function ends inside a loop whose last statement is a conditional return / with returns closing a trailing if-else
+    "tailloop": "i = 0\nwhile True:\n    i += 1\n    db.On = i\n    if i * 2 >= {t}:\n        return i + 10\n",
+    "tailifelse": "db.On = {t}\nif {t} > 2:\n    return {t} - 1\nelse:\n    return {t} + 1\n",
 }
-LEAF_HASRET = {"end", "early", "multi", "loop"}
+LEAF_HASRET = {"end", "early", "multi", "loop", "tailloop", "tailifelse"}
 MID_USE = ["stmt", "assign", "expr", "tailstmt", "retcall", "inloop", "inif", "twice_inside", "early_before", "early_after", "early_between"]
 
 
@@ -758,8 +762,9 @@ def names_lib():
 def _lib_module(pre, ret, twice, never, mainblock, init, effect_attr, second=False):
     """Source of one library module.  pre = '' for the module form, '<mod>_' for the merged form."""
     P = lambda n: pre + n
-    s = f"{P('count')} = {init}\n"
-    body = f"global {P('count')}\n{P('count')} = {P('count')} + k\ndb.{effect_attr} = {P('count')}\n" + (f"return {P('count')} * 2 + k\n" if ret else "")
+    # 'limit' is assigned once, to a constant, at module level (a candidate for constant propagation); unused code assigns it too
+    s = f"{P('count')} = {init}\n{P('limit')} = 50\n"
+    body = f"global {P('count')}\n{P('count')} = {P('count')} + k\nif {P('count')} < {P('limit')}:\n    db.{effect_attr} = {P('count')}\n" + (f"return {P('count')} * 2 + k\n" if ret else "")
     s += fdef(P("bump"), ["k"], body)
     if twice:
         if ret:
@@ -770,9 +775,9 @@ def _lib_module(pre, ret, twice, never, mainblock, init, effect_attr, second=Fal
         # a second module-level variable, defined after the first function (its source lines do not overlap the first one's)
         s += f"{P('total')} = 5\n" + fdef(P("accum"), ["k"], f"global {P('total')}\n{P('total')} = {P('total')} + k * 3\ndb.Color = {P('total')}\n")
     if never:
-        s += fdef(P("never"), ["z"], f"db.Open = z + {P('count')}\n")
+        s += fdef(P("never"), ["z"], f"global {P('limit')}\n{P('limit')} = 1\ndb.Open = z + {P('count')}\n")
     if mainblock and not pre:
-        s += 'if __name__ == "__main__":\n    db.Open = 77\n    while True:\n        yield_()\n'
+        s += 'if __name__ == "__main__":\n    limit = 2\n    db.Open = 77\n    while True:\n        yield_()\n'
     return s
 
 
@@ -1031,4 +1036,81 @@ def names_inline(tier="quick"):
         )
         out.append(mk("NAMESINL", n, src, names=[H, P], V=[0, 1, 3], K=12, T=2, cap=32))
         n += 1
+    return out
+
+
+# ----------------------------------------------------------------------------
+# AUG / UNUSED: augmented assignments with every operator; results that are never read but whose computation has effects
+# (pruning of unused code must only drop effect-free code) -- C01
+
+def augunused(tier="quick"):
+    out = []
+    n = 0
+    ops = ["+=", "-=", "*=", "/=", "%=", "**=", "<<=", ">>=", "&=", "^="]
+    for op in ops:
+        rhs_list = ["2", "x", "d1.Setting + 1"] if op not in ("%=", "/=", "<<=", ">>=") else ["2", "x + 1", "d1.Setting + 1"]
+        for rhs in rhs_list:
+            for ctx in ("main", "loop", "func", "global"):
+                if ctx == "main":
+                    src = f"x = d1.Setting\nw = d0.Setting\nw {op} {rhs}\ndb.Setting = w\ndb.On = x\n"
+                elif ctx == "loop":
+                    src = f"x = d1.Setting\nw = d0.Setting + 1\nk = 0\nwhile k < 2:\n    w {op} {rhs}\n    db.On = w\n    k += 1\ndb.Setting = w\n"
+                elif ctx == "func":
+                    src = f"def f(w, x):\n    w {op} {rhs}\n    return w\nwhile True:\n    db.Setting = f(d0.Setting, d1.Setting)\n    db.On = f(3, 2)\n    yield_()\n"
+                else:
+                    src = f"W = 3\ndef f(x):\n    global W\n    W {op} {rhs}\n    db.On = W\nwhile True:\n    f(d1.Setting)\n    f(1)\n    db.Setting = W\n    yield_()\n"
+                out.append(mk("AUG", n, src, tag=f"{op}/{rhs}/{ctx}", V=[0, 1, 2, 3], K=10, T=2, cap=128))
+                n += 1
+    unused = [
+        # value-returning function with an effect, result never read
+        "def show(v):\n    db.On = v\n    return v + 1\nwhile True:\n    t = show(d0.Setting)\n    show(2)\n    db.Setting = 5\n    yield_()\n",
+        "def show(v):\n    db.On = v\n    return v + 1\ndef work(a):\n    t = show(a)\n    u = show(a + 1)\n    db.Mode = a\nwhile True:\n    work(d0.Setting)\n    work(1)\n    yield_()\n",
+        # unused variable assigned in a loop / branch; the loop itself has effects
+        "k = 0\nwhile k < 3:\n    unused = k * d0.Setting\n    db.On = k\n    k += 1\ndb.Setting = k\n",
+        "x = d0.Setting\nif x > 1:\n    unused = x + 1\n    db.On = 1\nelse:\n    unused = 3\ndb.Setting = x\n",
+        # expression statements
+        "d0.Setting\ndb.Setting = 1\n",
+        "x = d0.Setting\nx + 1\ndb.Setting = x\n",
+        # unused function definitions, unused parameters
+        "def never(a):\n    db.On = a\ndef used(a, b):\n    db.Mode = a\nwhile True:\n    used(d0.Setting, d1.Setting)\n    used(1, 2)\n    yield_()\n",
+        "def used(a, b, c):\n    db.Mode = b\n    return c\nwhile True:\n    db.Setting = used(d0.Setting, d1.Setting, 3)\n    db.On = used(1, 2, d0.Setting)\n    yield_()\n",
+        # a variable that is written twice and read once; written but only read in dead code
+        "x = d0.Setting\nx = d1.Setting\ndb.Setting = x\n",
+        "DEBUG = 0\nx = d0.Setting\ny = x * 2\nif DEBUG:\n    db.On = y\ndb.Setting = x\n",
+        # effect inside the argument of a call whose result is unused
+        "def show(v):\n    db.On = v\n    return v\ndef twice(v):\n    return v * 2\nwhile True:\n    t = twice(show(d0.Setting))\n    twice(show(3))\n    db.Setting = 1\n    yield_()\n",
+        # stack writes whose value is never read back by the program are still effects on own memory only (not observable): later read
+        "stack[3] = d0.Setting\nunused = stack[3]\nstack[4] = stack[3] + 1\ndb.Setting = stack[4]\n",
+        # yield / sleep in otherwise empty loop bodies
+        "k = 0\nwhile k < 2:\n    yield_()\n    k += 1\ndb.Setting = k\n",
+    ]
+    for i, sx in enumerate(unused):
+        out.append(mk("UNUSED", i, sx, V=[0, 1, 2, 3], K=10, T=3, cap=128))
+    return out
+
+
+
+# ----------------------------------------------------------------------------
+# LATESTORE: a function-local that is stored to again after its last read while a later-defined local is live -- C04, C01
+
+def latestore(tier="quick"):
+    out = []
+    n = 0
+    for k in (1, 2, 4):
+        ks = [f"k{i}" for i in range(k)]
+        loads = "".join(f"{v} = d{i % 3}.Setting\n" for i, v in enumerate(ks))
+        use = "db.Setting = a + " + " + ".join(f"{v} * {10 ** (i + 1)}" for i, v in enumerate(ks)) + "\n"
+        bodies = {
+            "plain": "n = a + 1\ndb.On = n\n" + loads + "n = 0\n" + use,
+            "aug": "cnt = a\ndb.On = cnt\n" + loads + "cnt += 1\n" + use,
+            "branch": "n = a + 1\ndb.On = n\n" + loads + "if a > 1:\n    n = 5\n" + use,
+            "twostores": "n = a + 1\ndb.On = n\n" + loads + "n = 0\nn = 7\n" + use,
+            "afterloop": "n = 0\nfor i in range(2):\n    n = n + i\n    db.On = n\n" + loads + "n = 0\n" + use,
+            "readlater": "n = a + 1\ndb.On = n\n" + loads + "n = 3\n" + use + "db.Mode = n\n",
+            "param": "db.On = a\n" + loads + use.replace("a + ", "") + "a = 0\n",
+        }
+        for bn, body in bodies.items():
+            src = "def step(a):\n" + ind(body) + "while True:\n    step(d1.Setting)\n    step(2)\n    yield_()\n"
+            out.append(mk("LATESTORE", n, src, tag=f"{k}/{bn}", V=[0, 1, 2], K=10, T=2, cap=81))
+            n += 1
     return out
